@@ -90,6 +90,11 @@ const (
 //	dinc   M[$1][$2]++               dts    M[$1][$2] = timestamp()
 //	dset   M[$1][$2] = int($3)       (ArgDim3; the datum is looked up, and created, BEFORE int($3) can fail)
 //	ddel   del M[$1][$2]             dexp   del M[$1][$2] after 1h
+//
+// an instruction that PANICS inside the VM and is recovered by VM.execute (the
+// checker accepts ++ on a histogram; datum.IncIntBy panics on a Buckets datum):
+//
+//	hinc   M++                       with  histogram M buckets 1, 2, 4
 type Action struct {
 	K      string `json:"k"`
 	Layout string `json:"layout,omitempty"`
@@ -140,6 +145,9 @@ func (s Stmt) Pattern() string {
 // IsDim: the metric name is one of the dimensioned metrics (d* counters, e* gauges).
 func IsDim(name string) bool { return strings.HasPrefix(name, "d") || strings.HasPrefix(name, "e") }
 
+// IsHist: the metric is a histogram (h*); its datum is not an Int and is not read back.
+func IsHist(name string) bool { return strings.HasPrefix(name, "h") }
+
 func isDimAct(k string) bool {
 	switch k {
 	case "dinc", "dset", "dts", "ddel", "dexp":
@@ -150,10 +158,11 @@ func isDimAct(k string) bool {
 
 // Metrics lists the metric names used, gauges (g*, n*) first, in the order they
 // are declared, which is the order of code.Object.Metrics.  The dimensioned
-// metrics come last, so a scalar metric's index is its slot in the model.
+// metrics and then the histograms come last, so a scalar int metric's index is
+// its slot in the model.
 func (p Prog) Metrics() []string {
 	seen := map[string]bool{}
-	var gs, cs, ds []string
+	var gs, cs, ds, hs []string
 	for _, s := range p.Stmts {
 		for _, a := range append(append([]Action{}, s.Acts...), s.Else...) {
 			if a.M == "" || seen[a.M] {
@@ -161,6 +170,8 @@ func (p Prog) Metrics() []string {
 			}
 			seen[a.M] = true
 			switch {
+			case IsHist(a.M):
+				hs = append(hs, a.M)
 			case IsDim(a.M):
 				ds = append(ds, a.M)
 			case a.K == "inc":
@@ -170,14 +181,14 @@ func (p Prog) Metrics() []string {
 			}
 		}
 	}
-	return append(append(gs, cs...), ds...)
+	return append(append(append(gs, cs...), ds...), hs...)
 }
 
-// Scalars is the number of metrics without keys (slots 0..Scalars-1).
+// Scalars is the number of int metrics without keys (slots 0..Scalars-1).
 func (p Prog) Scalars() int {
 	n := 0
 	for _, m := range p.Metrics() {
-		if !IsDim(m) {
+		if !IsDim(m) && !IsHist(m) {
 			n++
 		}
 	}
@@ -196,6 +207,8 @@ func (p Prog) Source() string {
 	}
 	for _, m := range p.Metrics() {
 		switch {
+		case IsHist(m):
+			fmt.Fprintf(&b, "histogram %s buckets 1, 2, 4\n", m)
 		case IsDim(m) && m[0] == 'd':
 			fmt.Fprintf(&b, "counter %s by a, b\n", m)
 		case IsDim(m):
@@ -238,6 +251,8 @@ func (p Prog) Source() string {
 				fmt.Fprintf(&b, "%s%s = int($1)\n", ind, a.M)
 			case "stop":
 				b.WriteString(ind + "stop\n")
+			case "hinc":
+				fmt.Fprintf(&b, "%s%s++\n", ind, a.M)
 			case "dinc":
 				fmt.Fprintf(&b, "%s%s[$1][$2]++\n", ind, a.M)
 			case "dset":
@@ -290,6 +305,8 @@ type Event struct {
 	// follow a get): M is then the slot Slots.Assign gives to (DM, Labels)
 	DM     string   `json:"dm,omitempty"`
 	Labels []string `json:"labels,omitempty"`
+	// fail: the runtime error is a panic inside the VM that execute recovers
+	Panic bool `json:"panic,omitempty"`
 }
 
 // Events is the sequence of time-relevant events the program performs on the
@@ -316,6 +333,8 @@ func (p Prog) Events(line string) []Event {
 				lab = []string{groups[1], groups[2]}
 			}
 			switch a.K {
+			case "hinc": // mload, dload, inc: IncIntBy panics, execute recovers: errorf + terminate
+				evs = append(evs, Event{K: "fail", Panic: true})
 			case "dinc": // capref, capref, mload, dload, inc
 				evs = append(evs, Event{K: "get", DM: a.M, Labels: lab}, Event{K: "inc", DM: a.M, Labels: lab})
 			case "dts": // ..., dload, timestamp, iset
@@ -506,7 +525,7 @@ func (h *VM) Line(s string) int64 {
 func (h *VM) ints() []*datum.Int {
 	var r []*datum.Int
 	for _, m := range h.Obj.Metrics {
-		if len(m.Keys) > 0 {
+		if len(m.Keys) > 0 || m.Kind == metrics.Histogram {
 			continue
 		}
 		d, err := m.GetDatum()
@@ -921,6 +940,7 @@ type Weights struct {
 	TailUncond                                     int // percent: ... or in a bare top-level stop / failing strptime
 	HeadUncond                                     int // percent: the program starts with a top-level counter++
 	Dim                                            int // percent: the program also has dimensioned metrics (0: never, no random draw)
+	Panic                                          int // percent: the program also has `/^H$/ { ...; h0++ }`, an instruction that panics and is recovered (0: never, no random draw)
 }
 
 // LabelPairs: families of label tuples for a metric with two keys.  The tuples
@@ -1041,6 +1061,20 @@ func GenProg(r *vlib.Rand, w Weights) Prog {
 	if w.Dim > 0 && r.Chance(w.Dim) {
 		genDim(r, &p)
 	}
+	if w.Panic > 0 && r.Chance(w.Panic) {
+		// ++ on a histogram: accepted by the checker, panics in the datum package,
+		// recovered by the VM as a runtime error that ends the line
+		s := Stmt{Tag: "H", Arg: ArgNone}
+		if r.Chance(60) {
+			s.Acts = append(s.Acts, Action{K: "inc", M: vlib.Pick(r, counters)})
+		}
+		s.Acts = append(s.Acts, Action{K: "hinc", M: "h0"})
+		if r.Chance(40) {
+			s.Acts = append(s.Acts, Action{K: "inc", M: vlib.Pick(r, counters)}) // never reached
+		}
+		at := r.Intn(len(p.Stmts) + 1)
+		p.Stmts = append(p.Stmts[:at], append([]Stmt{s}, p.Stmts[at:]...)...)
+	}
 	// a program must declare at least one metric and read the clock somewhere
 	last := Stmt{Tag: vlib.Pick(r, tags), Arg: ArgNone,
 		Acts: []Action{{K: "gts", M: vlib.Pick(r, gauges)}, {K: "inc", M: vlib.Pick(r, counters)}}}
@@ -1158,6 +1192,18 @@ func genDim(r *vlib.Rand, p *Prog) {
 	}
 }
 
+// HasPanic: the program has a statement whose instruction panics in the VM.
+func (p Prog) HasPanic() bool {
+	for _, s := range p.Stmts {
+		for _, a := range s.Acts {
+			if a.K == "hinc" {
+				return true
+			}
+		}
+	}
+	return false
+}
+
 // HasDim: the program has a statement over a dimensioned metric.
 func (p Prog) HasDim() bool {
 	for _, s := range p.Stmts {
@@ -1236,6 +1282,9 @@ func LinePool(r *vlib.Rand, p Prog) []string {
 		switch s.Arg {
 		case ArgNone:
 			pool = append(pool, s.Tag)
+			if p.HasPanic() && s.Tag == "H" {
+				pool = append(pool, s.Tag, s.Tag)
+			}
 		case ArgInt:
 			for i := 0; i < 2; i++ {
 				pool = append(pool, s.Tag+" "+strconv.FormatInt(vlib.Pick(r, settConsts), 10))
